@@ -414,6 +414,7 @@ class Judge:
                               "block %r starts the run at %s although initial_point=%s was given" %
                               (b, obs["initial"][b], cur[b]))
                     return 0
+        run_start = {o: cur[o].copy() for o in model.order}
         cached = {b: model.logjoint(cur) for b in model.order}     # emulation of a never-refreshed logd cache
         stored, warm = [], []
         events = obs["events"]
@@ -439,8 +440,11 @@ class Judge:
                 elif warm:
                     cur = {b: warm[-1][b].copy() for b in model.order}
                 warm_this = []
+            op_start = {o: cur[o].copy() for o in model.order}
+            sweeps_in_op = 0
             for phase, nsw in phases:
                 for sw in range(nsw):
+                    sweep_start = {o: cur[o].copy() for o in model.order}
                     for b in model.order:
                         for t in range(nsteps[b]):
                             if ei >= len(events) or ei >= obs["ops"][oi]["n_events"]:
@@ -454,13 +458,17 @@ class Judge:
                             res.transitions += 1
                             kind = assign[b]
                             if ev["block"] != b:
-                                self.fail("sweep", "block-order",
-                                          "expected a transition of block %r (step %d/%d), the sampler of block %r ran"
-                                          % (b, t + 1, nsteps[b], ev["block"]))
+                                prev_b = events[ei - 2]["block"] if ei >= 2 else None
+                                facet = ("transition-count" if (t > 0 or ev["block"] == prev_b) else "block-order")
+                                self.fail("sweep", facet,
+                                          "expected a transition of block %r (step %d of the configured %d), the sampler "
+                                          "of block %r ran" % (b, t + 1, nsteps[b], ev["block"]))
                                 return compared
                             # (1) start point = current value of the block
                             if ev["start"].shape != cur[b].shape or not np.array_equal(ev["start"], cur[b]):
-                                self.fail("block-start", "kind=%s" % kind,
+                                facet = ("at-continuation" if (oi > 0 and sweeps_in_op == 0 and t == 0)
+                                         else ("first-step" if t == 0 else "later-step"))
+                                self.fail("block-start", facet,
                                           "block %r starts at %s, its current value is %s (op %d sweep %d step %d)" %
                                           (b, ev["start"], cur[b], oi, sw, t), events_before=ei - 1)
                                 return compared
@@ -478,7 +486,15 @@ class Judge:
                             res.evaluations += 1
                             if not close(ev["probes"], ref, 1e-9):
                                 shifted = close(np.array(ev["probes"]) - ev["probes"][0], np.array(ref) - ref[0], 1e-9)
-                                self.fail("conditional", "block=%s,%s" % (b, "constant" if shifted else "function"),
+                                facet = "constant" if shifted else "function"
+                                for hname, hyp in (("others=sweep-start-values", sweep_start),
+                                                   ("others=operation-start-values", op_start),
+                                                   ("others=initial-values", run_start)):
+                                    href = [model.cond_logd(b, p, hyp) for p in model.probes(b)[:len(ev["probes"])]]
+                                    if close(ev["probes"], href, 1e-9):
+                                        facet = hname
+                                        break
+                                self.fail("conditional", facet,
                                           "target handed to block %r is not the joint conditioned on the current other "
                                           "blocks %s: logd at probes %s, reference %s" %
                                           (b, {o: cur[o].tolist() for o in model.order if o != b}, ev["probes"], ref),
@@ -558,6 +574,7 @@ class Judge:
                             # adopt the implementation's floating point value (differences <= tol are not judged)
                             cur[b] = ev["new"].copy()
                             res.state((oi, sw, b, t, tuple(np.round(cur[b], 9))))
+                    sweeps_in_op += 1
                     tup = {b: cur[b].copy() for b in model.order}
                     if iface == "hybrid" or phase == "s":
                         stored.append(tup)
